@@ -18,20 +18,20 @@ def cop(o):
     return {"send": lambda: "LSend %d" % a[0], "recv": lambda: "LRecv %d %d" % (a[0], a[1]), "clone": lambda: "LClone %d %d" % (a[0], a[1]),
             "drop": lambda: "LDrop %d" % a[0], "xdrop": lambda: "LDrop %d" % a[0], "teardown": lambda: "LTeardown"}[n]()
 
-def mk_case(chan, k, prog, meta=None):
+def mk_case(chan, k, prog, meta=None, origin=0):
     drains, clones, _ = KINDS[chan]
-    line = "life chan=%s k=%d ; %s ; S" % (chan, k, " ".join(tok(o) for o in prog))
+    line = "life chan=%s k=%d%s ; %s ; S" % (chan, k, " origin=%d" % origin if origin else "", " ".join(tok(o) for o in prog))
     coq = "run_life %s %s %d [%s]%%nat" % (str(drains).lower(), str(clones).lower(), k, "; ".join(cop(o) for o in prog))
-    m = dict(chan=chan, k=k, prog=prog, profile="life"); m.update(meta or {})
+    m = dict(chan=chan, k=k, prog=prog, profile="life", origin=origin); m.update(meta or {})
     return Case(line, coq, m)
 
 def parse_case_line(line):
     secs = [s.strip() for s in line.split(";")]
     params = dict(kv.split("=") for kv in secs[0].split()[1:])
     prog = [(t.split(":")[0], [int(x) for x in t.split(":")[1:]]) for t in secs[1].split()]
-    return mk_case(params["chan"], int(params["k"]), prog)
+    return mk_case(params["chan"], int(params["k"]), prog, origin=int(params.get("origin", 0)))
 
-def gen_history(rng, chan):
+def gen_history(rng, chan, origin=0):
     drains, clones, kmax = KINDS[chan]
     k = rng.randint(1, kmax)
     prog = []; nid = 0
@@ -56,7 +56,7 @@ def gen_history(rng, chan):
     # the end: release every handle (handles must not outlive their channel), then - mostly - tear the channel down with whatever is still buffered
     for h in list(held): prog.append(("drop", [h]))
     if rng.random() < 0.8: prog.append(("teardown", []))
-    return mk_case(chan, k, prog)
+    return mk_case(chan, k, prog, origin=origin)
 
 def oracle(case, recs):
     """the property, on the implementation history alone: a payload's destructor never runs twice; never while a handle to it is held or
